@@ -356,8 +356,12 @@ theorem getR_append_length (a : List Rat) (v : Rat) : getR (a ++ [v]) a.length =
 
 /-! ### well-formed layers (what `__init__`/`build` guarantee) and their normal form -/
 
-/-- What `verify_hyperparameters` and `build` guarantee, plus "softmax output = positive weights
-summing to one" for learned interior keypoints. -/
+/-- What `verify_hyperparameters` and the shapes of `build` guarantee, plus "softmax output = positive
+weights summing to one" for learned interior keypoints. NOT included: the `weights_shape[0] ≥ 2` check
+(`pwl_calibration_lib.verify_hyperparameters`: "weights must have shape [k, units] where k > 1") that
+`build` runs on the kernel — see `Buildable` below; it only bites for `is_cyclic=True` with exactly two
+keypoints (`buildable_iff`), a layer whose constructor succeeds and whose `build` raises `ValueError`.
+Every evaluation theorem holds under the weaker `WF` (the formulas make sense for a one-row kernel). -/
 structure WF (cfg : Cfg) (kernel ws : List Rat) : Prop where
   /-- at least two keypoints -/
   two : 2 ≤ cfg.inputKeypoints.length
@@ -369,6 +373,29 @@ structure WF (cfg : Cfg) (kernel ws : List Rat) : Prop where
   wlen : cfg.learned = true → ws.length + 1 = cfg.inputKeypoints.length
   wpos : cfg.learned = true → ∀ w ∈ ws, 0 < w
   wsum : cfg.learned = true → rsum ws = 1
+
+/-- a layer that EXISTS: `WF` plus `build`'s requirement of at least two kernel rows
+(`verify_hyperparameters(weights_shape=…)`: `weights_shape[0] < 2` raises `ValueError`). -/
+structure Buildable (cfg : Cfg) (kernel ws : List Rat) : Prop extends WF cfg kernel ws where
+  /-- `num_weights = len(input_keypoints) - is_cyclic ≥ 2` -/
+  krows : 2 ≤ kernel.length
+
+/-- the extra requirement of `build` excludes exactly `is_cyclic` with two keypoints -/
+theorem buildable_iff {cfg : Cfg} {kernel ws : List Rat} (h : WF cfg kernel ws) :
+    Buildable cfg kernel ws ↔ (cfg.isCyclic = false ∨ 3 ≤ cfg.inputKeypoints.length) := by
+  have hk := h.klen
+  have h2 := h.two
+  constructor
+  · intro hb
+    have := hb.krows
+    by_cases hc : cfg.isCyclic = true
+    · right; simp only [hc, if_true] at hk; omega
+    · left; simpa using hc
+  · rintro (hc | h3)
+    · refine ⟨h, ?_⟩
+      simp only [hc, Bool.false_eq_true, if_false, Nat.add_zero] at hk; omega
+    · refine ⟨h, ?_⟩
+      split_ifs at hk <;> omega
 
 /-- heights of the pieces: `bias_and_heights[1:]` -/
 def heights (cfg : Cfg) (kernel : List Rat) : List Rat := (biasAndHeights cfg kernel).tail
